@@ -52,15 +52,18 @@ static void ghost_setup()
       int t = vf_range(0, 3);
       int r = vf_range(0, 1);
       g_live[w][i] = live ? 1 : 0;
-      bool lr = live ? role : false;
+      bool lr = G_AND(live, role);
       g_loc[w][i] = lr ? ((t == 0) ? 0 : (t == 1) ? 1 : (t == 2) ? 3 : 22) : G_NONE; // X, Z, F, SIMU
       g_rank[w][i] = lr ? r : 0;
     }
     for (int i = 0; i < VF_NPRE; i++)
       for (int j = 0; j < i; j++)
-        vf_assume(g_loc[w][i] < 0 || g_loc[w][j] != g_loc[w][i] || g_rank[w][j] != g_rank[w][i]);
+        vf_assume(G_OR(g_loc[w][i] < 0, G_OR(g_loc[w][j] != g_loc[w][i], g_rank[w][j] != g_rank[w][i])));
     for (int i = 0; i < VF_NPRE; i++)
-      vf_assume(g_loc[w][i] < 0 || g_rank[w][i] == 0 || g_find(w, g_loc[w][i], 0) >= 0);
+    {
+      int f0 = g_find(w, g_loc[w][i], 0);
+      vf_assume(G_OR(g_loc[w][i] < 0, G_OR(g_rank[w][i] == 0, f0 >= 0)));
+    }
     g_next[w] = VF_NPRE;
     g_ndim[w] = vf_range(0, 3);
     g_grid[w] = vf_nondet_bool() ? 1 : 0;
@@ -94,9 +97,10 @@ static void note(int which, int status, int iuid, int n)
 {
   for (int i = 0; i < G_MAXID; i++)
   {
-    bool in = (iuid >= 0) ? ((i >= iuid) ? (i < iuid + n) : false) : false;
-    perm[which - 1][i] = (in ? (status == 1) : false) ? 1 : perm[which - 1][i];
-    temp[which - 1][i] = (in ? (status != 1) : false) ? 1 : temp[which - 1][i];
+    bool in = G_AND3(iuid >= 0, i >= iuid, i < iuid + n);
+    int pp = perm[which - 1][i], tt = temp[which - 1][i];
+    perm[which - 1][i] = G_AND(in, status == 1) ? 1 : pp;
+    temp[which - 1][i] = G_AND(in, status != 1) ? 1 : tt;
   }
 }
 static void check_success(int w)
@@ -104,9 +108,10 @@ static void check_success(int w)
   bool ids = (g_baddel[w] == 0), tmp = true;
   for (int i = 0; i < G_MAXID; i++)
   {
-    bool want = (p_live[w][i] != 0) ? true : (perm[w][i] != 0);
-    ids = ((g_live[w][i] != 0) == want) ? ids : false;
-    tmp = ((temp[w][i] != 0) ? (g_live[w][i] != 0) : false) ? false : tmp;
+    int l = g_live[w][i], pl = p_live[w][i], pp = perm[w][i], tt = temp[w][i];
+    bool want = G_OR(pl == 1, pp == 1);
+    ids = G_AND(ids, (l == 1) == want);
+    tmp = G_AND(tt == 1, l == 1) ? false : tmp;
   }
   vf_assert_id(ids, "success: live identifiers == previous ones + the variables registered as permanent");
   vf_assert_id(tmp, "success: no temporary variable is left");
@@ -132,20 +137,21 @@ public:
   virtual bool _postprocess() override;
   virtual void _rollback() override;
   bool stage(const Stage& s);
+  // two distinct callees: the data base is a constant at each real _addVariableDb call site
+  __attribute__((noinline)) int addIn(int status, int n) { return _addVariableDb(1, status, ELoc::UNKNOWN, 0, n, 0.); }
+  __attribute__((noinline)) int addOut(int status, int n) { return _addVariableDb(2, status, ELoc::UNKNOWN, 0, n, 0.); }
 };
 bool MiniCalc::stage(const Stage& s)
 {
   if (s.add1)
   {
-    int id = (s.which1 == 1) ? _addVariableDb(1, s.status1, ELoc::UNKNOWN, 0, 1, 0.)
-                             : _addVariableDb(2, s.status1, ELoc::UNKNOWN, 0, 1, 0.);
+    int id = (s.which1 == 1) ? addIn(s.status1, 1) : addOut(s.status1, 1);
     if (id < 0) return false;
     if (s.which1 == 1) note(1, s.status1, id, 1); else note(2, s.status1, id, 1);
   }
   if (s.add2)
   {
-    int id = (s.which2 == 1) ? _addVariableDb(1, s.status2, ELoc::UNKNOWN, 0, 2, 0.)
-                             : _addVariableDb(2, s.status2, ELoc::UNKNOWN, 0, 2, 0.);
+    int id = (s.which2 == 1) ? addIn(s.status2, 2) : addOut(s.status2, 2);
     if (id < 0) return false;
     if (s.which2 == 1) note(1, s.status2, id, 2); else note(2, s.status2, id, 2);
   }
